@@ -19,7 +19,9 @@ Range(f) == {f[i] : i \in DOMAIN f}
 
 \* JSON form of the configurations of a Net line -> [conf id -> [node -> [types, addrs]]]
 ConfsOf(x) == [c \in DOMAIN x.confs |->
-                 [n \in DOMAIN x.confs[c] |-> [types |-> Range(x.confs[c][n].t) \cap Types, addrs |-> Range(x.confs[c][n].a)]]]
+                 [n \in DOMAIN x.confs[c] |->
+                    [ents |-> [i \in DOMAIN x.confs[c][n].t |-> Range(x.confs[c][n].t[i]) \cap Types],
+                     addrs |-> Range(x.confs[c][n].a)]]]
 
 \* <trace>.hdr is a one-line header written by the orchestrator: all node ids and configuration ids of
 \* the trace (scanning the trace inside a constant definition would re-read the file for every line)
@@ -30,7 +32,7 @@ TraceParts == 0..2999          \* nodeconf.PartitionCount
 
 Fresh(x) == /\ pub = ConfsOf(x)
             /\ last = [p \in Participants |-> NoConf] /\ stored = [p \in Participants |-> NoConf]
-            /\ priv = [p \in Participants |-> NoConf]
+            /\ priv = [p \in Participants |-> NoConf] /\ look = [p \in Participants |-> NoConf]
             /\ part = <<>> /\ ring = <<>> /\ obs = NoConf
 
 TraceInit == l = 2 /\ Trace[1].ev = "Net" /\ Fresh(Trace[1])
@@ -41,7 +43,7 @@ TrNet == /\ IsEvent("Net")
          /\ LET x == Trace[l] IN
               /\ pub' = ConfsOf(x)
               /\ last' = [p \in Participants |-> NoConf] /\ stored' = [p \in Participants |-> NoConf]
-              /\ priv' = [p \in Participants |-> NoConf]
+              /\ priv' = [p \in Participants |-> NoConf] /\ look' = [p \in Participants |-> NoConf]
               /\ part' = <<>> /\ ring' = <<>> /\ obs' = NoConf
 
 TrBoot    == IsEvent("Boot")    /\ BootWith(Trace[l].p, Trace[l].app)
@@ -53,8 +55,25 @@ TrQuery == /\ IsEvent("Query")
            /\ LET x == Trace[l] IN
                 /\ x.cid \in DOMAIN pub \/ (x.cid = Merged /\ priv[x.p] # NoConf)
                 /\ Answer(x.p, x.space, x.cid, x.part, Range(x.members), Range(x.fileV2Ids), Range(x.nodeIds), x.resp)
+                /\ UNCHANGED look
 
-TraceNext == TrNet \/ TrBoot \/ TrUpdate \/ TrRestart \/ TrQuery
+\* a lookup parked inside the ring walk (the harness holds it at a gate) ...
+TrLookupBegin == IsEvent("LookupBegin") /\ LookupBegin(Trace[l].p, Trace[l].space)
+\* ... returns.  Its own result is not judged: a lookup that overlaps a configuration change may answer for either
+\* configuration; what is judged are the answers after quiescence (the Query lines that follow)
+TrLookupEnd == /\ IsEvent("LookupEnd") /\ look[Trace[l].p] # NoConf
+               /\ look' = [look EXCEPT ![Trace[l].p] = NoConf]
+               /\ UNCHANGED <<pub, last, stored, priv, part, ring, obs>>
+\* drift (not a verdict): the real service applied an update while a lookup was in flight, which the model's
+\* lock forbids; adopted so that the rest of the trace is still judged
+TrUpdateRacing == /\ IsEvent("Update") /\ look[Trace[l].p] # NoConf
+                  /\ LET p == Trace[l].p  c == Trace[l].cid IN
+                       /\ stored' = [stored EXCEPT ![p] = c] /\ last' = [last EXCEPT ![p] = c]
+                       /\ look' = [look EXCEPT ![p] = [space |-> look[p].space, conf |-> c]]
+                       /\ obs' = NoConf /\ UNCHANGED <<pub, priv, part, ring>>
+                  /\ PrintT(<<"TRACE-DRIFT-UPDATE-DURING-LOOKUP", l>>)
+
+TraceNext == TrNet \/ TrBoot \/ TrUpdate \/ TrRestart \/ TrQuery \/ TrLookupBegin \/ TrLookupEnd \/ TrUpdateRacing
 TraceSpec == TraceInit /\ [][TraceNext]_tvars
 
 \* lists returned by the code contain no node twice (sets would hide it)
